@@ -121,9 +121,17 @@ def js_quote(s):
     return js_string_literal(s)
 
 
-def render(spinner, site_tpl, wrap_tpl):
+LATE_SITES = ["eval", "eval-nested", "new-Function", "Function-closure", "getter", "valueOf-plus", "call", "cb:sort", "cb:map", "method"]
+
+
+def render(spinner, site_tpl, wrap_tpl, t_ms=None, late=False):
     S = SPINNERS[spinner][0]
     P = site_tpl % {"S": S, "Q": js_quote(S), "QQ": js_quote("eval(%s);" % js_quote(S))}
+    if late:
+        # spend ~60% of the budget *before* entering the site: a nested interpreter
+        # that restarts the clock then overruns by more than the slack
+        n = int(0.6 * t_ms * 1000 / 11)
+        P = "var bw = 0; while (bw < %d) { bw = bw + 1; } %s" % (n, P)
     return wrap_tpl % {"P": P}
 
 
@@ -280,9 +288,15 @@ def build_cases(chk):
     configs = [(20, None), (5, None), (50, 1000000), (20, 1000000)]
     cases = []
 
-    def add(sp, sname, stpl, wname, cfg):
-        src = render(sp, stpl, WRAPS[wname])
-        cases.append(((src, cfg[0], cfg[1], SPINNERS[sp][1]), (sp, sname, wname)))
+    def add(sp, sname, stpl, wname, cfg, late=False):
+        src = render(sp, stpl, WRAPS[wname], cfg[0], late)
+        cases.append(((src, cfg[0], cfg[1], SPINNERS[sp][1]), (sp, ("late:" if late else "") + sname, wname)))
+
+    # late entry into nested interpreters / built-ins (T = 50 so that 60% of it exceeds the slack)
+    for i, sp in enumerate(spinners):
+        for j, sname in enumerate(LATE_SITES):
+            if sname in sites and (chk.tier != "quick" or (i + j + chk.seed) % 3 == 0):
+                add(sp, sname, sites[sname], wraps[(i + j) % len(wraps)], (50, None), late=True)
 
     if chk.tier == "quick":
         # every (spinner, site) pair once, wrap and configuration rotated (Latin-square
@@ -353,9 +367,14 @@ def main(chk):
             chk.violation("saved-replay|" + path, rec.get("case"), r["expected"], r["actual"], sub="replay")
     cases = build_cases(chk) + nested_cases(chk)
     # waves, so that a tree on which every case hangs ends after the first wave
-    wave = 480
-    for w0 in range(0, len(cases), wave):
-        part = cases[w0 : w0 + wave]
+    # (the first wave is small and spread over the whole case list)
+    first = cases[:: max(1, len(cases) // 96)]
+    rest = [c for c in cases if c not in first]
+    waves = [first] + [rest[i : i + 480] for i in range(0, len(rest), 480)]
+    seen = 0
+    for part in waves:
+        w0 = seen
+        seen += len(part)
         batches = pool.chunks(part, 6)
         res = pool.run(_run_batch, [[c for c, _ in b] for b in batches], timeout=6 * ALARM + 30, init=_init_virtual)
         for b, rb in zip(batches, res):
@@ -368,7 +387,7 @@ def main(chk):
                 judge(chk, c, tags, r1, True)
         if chk.violation_count >= 40:
             chk.truncated = True
-            chk.extra["stopped_early"] = "%d violations after %d of %d cases" % (chk.violation_count, w0 + len(part), len(cases))
+            chk.extra["stopped_early"] = "%d violations after %d of %d cases" % (chk.violation_count, seen, len(cases))
             return
     # real-clock subset: clauses 1, 3, 4
     step = max(1, len(cases) // (40 if chk.tier == "quick" else 300))
